@@ -1,5 +1,5 @@
 // C17 wrapper over the real tbbmalloc front end (src/tbbmalloc/frontend.cpp is included textually)
-#include "/repo/src/tbbmalloc/frontend.cpp"
+#include "src/tbbmalloc/frontend.cpp"
 using namespace rml::internal;
 extern "C" void vp_emit(unsigned long v);
 extern "C" {
